@@ -487,7 +487,7 @@ func (ex *Exec) callModFamilies(st *State, c *ssa.Call) []string {
 	var allAssigns []*Clause
 	allAssigns = append(allAssigns, con.Assigns...)
 	for _, cl := range allAssigns {
-		for _, ls := range e.evalAssigns(cl.Expr) {
+		for _, ls := range e.evalAssignsClause(cl) {
 			if !seen[ls.Fam] {
 				seen[ls.Fam] = true
 				out = append(out, ls.Fam)
@@ -576,6 +576,20 @@ func (ex *Exec) resolveCallee(st *State, c *ssa.Call, quiet bool) (*Contract, []
 			ex.abort("call of closure %s: no contract", key)
 		}
 		return nil, nil
+	}
+	// a function stored in a struct field: contract keyed by the field
+	if ld, ok := cc.Value.(*ssa.UnOp); ok && ld.Op == token.MUL {
+		if fa, ok := ld.X.(*ssa.FieldAddr); ok {
+			if pt, ok := fa.X.Type().Underlying().(*types.Pointer); ok {
+				if nt, ok := pt.Elem().(*types.Named); ok {
+					st2 := nt.Underlying().(*types.Struct)
+					key := nt.Obj().Pkg().Name() + "." + nt.Obj().Name() + "." + st2.Field(fa.Field).Name()
+					if con := ex.prog.Contracts[key]; con != nil {
+						return con, nil
+					}
+				}
+			}
+		}
 	}
 	// dynamic call through a function value: contract of its named type, or
 	// a callee contract declared for the parameter
@@ -707,6 +721,10 @@ func (ex *Exec) applyContract(st *State, c *ssa.Call, con0 *Contract, bindings [
 			t := ex.typeOfBinder(con, bs[0])
 			e.vars[bs[0].Name] = BVal{Val: st.sc.fresh("self", st.u().sortOf(t))}
 			off = 1
+		} else if len(bs) == len(args)+1 && con.Kind == "functype" && fval != nil {
+			// functype contract with a leading `self` binder: the function value being called
+			e.vars[bs[0].Name] = BVal{Val: ex.val(st, fval), SSA: fval}
+			off = 1
 		} else if len(bs) != len(args) {
 			ex.abort("STALE-CONTRACT: contract %s has %d parameters, call passes %d", con.Name, len(bs), len(args))
 		}
@@ -780,7 +798,7 @@ func (ex *Exec) applyContract(st *State, c *ssa.Call, con0 *Contract, bindings [
 	var locsets []LocSet
 	for ci, con := range cons {
 		for _, cl := range con.Assigns {
-			locsets = append(locsets, envs[ci].evalAssigns(cl.Expr)...)
+			locsets = append(locsets, envs[ci].evalAssignsClause(cl)...)
 		}
 	}
 	if len(locsets) > 0 {
